@@ -373,8 +373,17 @@ def parent_main(args):
 
     harness_errors = []
     results = []
+    # hard limit: code under test that does not terminate (or a hopelessly overloaded machine) must not hang the check;
+    # this is a harness error (exit 2, nothing is concluded about the property), never a violation
+    hard_limit = float(os.environ.get("VERIF_HARD_LIMIT_S", "2400" if tier == "quick" else "28800"))
+    started = time.monotonic()
     for shard, out, log, proc in procs:
-        code = proc.wait()
+        try:
+            code = proc.wait(timeout=max(1.0, hard_limit - (time.monotonic() - started)))
+        except subprocess.TimeoutExpired:
+            proc.kill()
+            proc.wait()
+            code = f"KILLED after the hard limit of {hard_limit:.0f} s (VERIF_HARD_LIMIT_S)"
         log.close()
         if code != 0 or not os.path.exists(out):
             with open(log.name, encoding="utf-8", errors="replace") as handle:
